@@ -98,10 +98,7 @@ func (e *Experiment) Execute(ctx context.Context, startGenome *genetics.Genome, 
 				// stop further evaluation if already solved
 				neat.InfoLog(fmt.Sprintf(">>>>> The winner organism found in [%d] generation, fitness: %f <<<<<\n",
 					generationId, generation.Champion.Fitness))
-				// notify trial observer
-				if trialObserver != nil {
-					trialObserver.TrialRunFinished(&trial)
-				}
+				// the trial observer is notified about the trial finish once, after the trial is stored (see below)
 				break
 			}
 		}
